@@ -645,6 +645,13 @@ impl World {
         }
     }
 
+    /// what the sink's observers said from inside the publish-ack callback (recorded so that the calls are not
+    /// optimised away and show in the event log)
+    pub fn cb_query(&self, open: bool, ready: bool, credit: usize) {
+        self.probe(if open { "cb_query_open" } else { "cb_query_closed" });
+        let _ = (ready, credit);
+    }
+
     pub fn cb_mark(&self) -> usize {
         self.cb_log.borrow().len()
     }
